@@ -2,15 +2,21 @@
 import EtkVerif.Driver.AsmCmd
 import EtkVerif.Asm.Ingest
 import EtkVerif.Asm.IngestTraced
+import EtkVerif.Asm.IngestFuel
 namespace EtkVerif.Driver
 open EtkVerif Asm
 
-/-- fuel for a file tree whose files hold `total` bytes altogether: above `256 * (N + 2)` for every `N ≤ total + 1`
-(`C14_ingest_terminates`: the include recursion).  For the assembler phase the proved bound is `257 * (opsSize + 2)` of
-the ops the sources yield; this linear fuel is above it for ordinary trees but NOT in general (a chain of files that
-each import the next one twice multiplies the ops exponentially) — for `asmfs` "fuel is never the answer" is therefore
-observed on the generated trees, not proved, unlike for `asm` (`asmFuelOps`). -/
+/-- base fuel for a file tree whose files hold `total` bytes altogether: above `256 * (N + 2)` for every `N ≤ total + 1`
+(`C14_ingest_terminates`: the include recursion) -/
 def fsFuel (total : Nat) : Nat := 1100 * (total + 100) + 100000
+
+/-- the fuel `asmfs` / `asmfsr` run with: at least `ingestFileFuel` (`Asm/IngestFuel.lean`), the threshold above which
+`ingestFile_terminates` PROVES that fuel is not the reason for any answer — it pre-runs the include expansion and takes
+the assembler bound `257 * (opsSize + 2)` of the ops the sources really yield (files that import each other twice
+multiply the ops, so no bound in the text size alone would do).  The hypothesis `nodesBound fs (total + 1)` of that
+theorem (a file has no more statements than bytes + 1) is not proved. -/
+def fsFuelFor (fs : FS) (total : Nat) (top : PathC) : Nat :=
+  max (fsFuel total) (ingestFileFuel fs ⟨true, []⟩ (total + 1) top)
 
 def strOfBytes (bs : List Nat) : String :=
   (String.fromUTF8? (ByteArray.mk (bs.map (·.toUInt8)).toArray)).getD ""
@@ -69,7 +75,7 @@ def cmdAsmFs (args : List String) : String :=
       let t := withParents tree
       let topPath := PathC.ofString ("/" ++ strOfBytes tb)
       let total := t.foldl (fun acc (_, e) => match e with | .file c => acc + c.length | _ => acc) 0
-      match ingestFile t.toFS ⟨true, []⟩ (fun k => k) (fsFuel total) topPath with
+      match ingestFile t.toFS ⟨true, []⟩ (fun k => k) (fsFuelFor t.toFS total topPath) topPath with
       | .ok (bytes, _) => s!"ok {hx bytes}"
       | .error e => showIngErr e
     | _, _ => "bad-op"
@@ -86,7 +92,7 @@ def cmdAsmFsR (args : List String) : String :=
       let t := withParents tree
       let topPath := PathC.ofString ("/" ++ strOfBytes tb)
       let total := t.foldl (fun acc (_, e) => match e with | .file c => acc + c.length | _ => acc) 0
-      let (res, tr) := Traced.ingestFileT t.toFS ⟨true, []⟩ (fun k => k) (fsFuel total) topPath
+      let (res, tr) := Traced.ingestFileT t.toFS ⟨true, []⟩ (fun k => k) (fsFuelFor t.toFS total topPath) topPath
       let reads := (readsOf tr).map (fun loc => "/".intercalate loc)
       let body := match res with
         | .ok bytes => s!"ok {hx bytes}"
